@@ -336,3 +336,107 @@ def _fwd_aliases(g, node):
                 seen.add(e.dst)
                 dq.append(e.dst)
     return seen
+
+
+# ---------------------------------------------------------------------------------------------------------
+# R4c: a for loop driven by a zip of a proof *vector field* with something that is not proof-derived
+LENGTH_PRESERVING = ("map", "collect", "cloned", "copied", "rev", "enumerate", "to_vec", "iter", "into_iter", "as_slice")
+INDEX_CALLEES = ("std::ops::Index::index", "std::ops::IndexMut::index_mut", "core::ops::Index::index")
+
+
+def growable_proof_fields(facts, proof_adts):
+    out = set()
+    for adt in proof_adts:
+        d = facts.adts.get(adt)
+        if not d or d["kind"] != "Struct":
+            continue
+        for fd in d["variants"][0]["fields"]:
+            if fd["ty"].startswith(("std::vec::Vec<", "std::option::Option<std::vec::Vec<")):
+                out.add(("FIELD", adt, fd["name"]))
+    return out
+
+
+def drives_for_loop(g, zip_site):
+    """is the zip's result (possibly through enumerate / into_iter) the receiver of an `Iterator::next` in a loop?"""
+    from .rng import cyclic_blocks
+    f = g.facts
+    bid, i = zip_site
+    b = f.bodies[bid]
+    t = b.blocks[i]["term"]
+    zd = (bid, t["dst"]["l"])
+    cyc = cyclic_blocks(b)
+    for j, tt in b.calls():
+        if j not in cyc:
+            continue
+        if not (tt.get("callee") or "").endswith("Iterator::next"):
+            continue
+        a = tt["args"][0]
+        if a["k"] not in ("copy", "move"):
+            continue
+        if zd in alias_roots(g, (bid, a["pl"]["l"])):
+            return True
+    return False
+
+
+def run_loopzip(rep, ctx, anchor, proof_adts, rule="R4c"):
+    g = ctx.graph(anchor)
+    f = ctx.facts
+    pfields = growable_proof_fields(f, proof_adts)
+    if not pfields:
+        return 0
+    n = 0
+    conds = None
+    memo = {}
+    per_body = defaultdict(int)
+    for bid in sorted(g.scope):
+        b = f.bodies[bid]
+        for i, t in b.calls():
+            if (t.get("callee") or "") not in ZIP_CALLEES or len(t["args"]) != 2:
+                continue
+            sides = []
+            for a in t["args"]:
+                sides.append(alias_roots(g, (bid, a["pl"]["l"]), NOT_PROOF_LIST, LENGTH_PRESERVING) if a["k"] in ("copy", "move") else set())
+            hit = [s & pfields for s in sides]
+            if bool(hit[0]) == bool(hit[1]):
+                continue
+            if not drives_for_loop(g, (bid, i)):
+                continue
+            n += 1
+            k = per_body[bid]
+            per_body[bid] += 1
+            P = sides[0] if hit[0] else sides[1]
+            C = sides[1] if hit[0] else sides[0]
+            fld = sorted(hit[0] or hit[1])[0]
+            name = "%s.%s" % (fld[1].rsplit("::", 1)[-1], fld[2])
+            key = "%s:loop-zip@%s#%d:%s" % (anchor.key, short(bid), k, name)
+            # guard 1: a dominating comparison of the two lengths
+            lp = data_closure(g, shape_seeds(g, views(g, P)))
+            lc = data_closure(g, shape_seeds(g, views(g, C)))
+            if conds is None:
+                conds = branch_conditions(g)
+            good = [gs for gs in [(gb, gi) for (gb, gi, c) in conds if c in lp and c in lc] if guard_dominates(g, gs, (bid, i), memo)]
+            if good:
+                rep.add(rule, key, True, "for loop over zip(%s, ..) at %s is guarded by the length comparison at %s" % (
+                    name, t["span"], where_of(f, *good[0])), t["span"])
+                continue
+            # guard 2: the same proof vector is also accessed by position (bounds-checked) with a computed index
+            idx_sites = []
+            for b2 in sorted(g.scope):
+                body2 = f.bodies[b2]
+                for j, tt in body2.calls():
+                    if (tt.get("callee") or "") not in INDEX_CALLEES or len(tt["args"]) != 2:
+                        continue
+                    ca, ia = tt["args"]
+                    if ca["k"] not in ("copy", "move") or ia["k"] not in ("copy", "move"):
+                        continue
+                    roots = alias_roots(g, (b2, ca["pl"]["l"]), NOT_PROOF_LIST, LENGTH_PRESERVING)
+                    if fld in roots:
+                        idx_sites.append(tt["span"])
+            if idx_sites:
+                rep.add(rule, key, True, "for loop over zip(%s, ..) at %s: the vector is also accessed by position at %s "
+                        "(a short vector aborts there)" % (name, t["span"], idx_sites[0]), t["span"])
+            else:
+                rep.add(rule, key, False, "for loop at %s runs over zip(%s, ..): the proof decides how many of the expected "
+                        "positions are checked - no length comparison dominates it and the vector is never accessed by "
+                        "position" % (t["span"], name), t["span"])
+    return n
